@@ -177,6 +177,10 @@ pub fn run_c20(ctx: &Ctx) -> i32 {
         let mut cmds = vec![];
         for _ in 0..len {
             let mut c = kv::gen_cmd(&mut r, &prof, &m, &keys, 900);
+            if r.gen_ratio(1, 25) {
+                // a flush whose deadline lies far beyond the run: no visible effect, but the command runs
+                c = Cmd::Flush { delay: Some([3600u32, 86_400][r.gen_range(0..2)]), quiet: r.gen_bool(0.3) };
+            }
             let mut cas = 0u64;
             match &mut c {
                 Cmd::Store { cas: a, .. } | Cmd::Concat { cas: a, .. } | Cmd::Counter { cas: a, .. } | Cmd::Delete { cas: a, .. } => {
@@ -215,7 +219,7 @@ pub fn run_c20(ctx: &Ctx) -> i32 {
                 let mut tc = Cli::connect_plain(port).ok();
                 let t_set = Instant::now();
                 if let Some(c) = tc.as_mut() {
-                    let _ = ask(c, &wire::store(op::SET, &ttl_key, b"t", 0, 3, 1, 0));
+                    let _ = ask(c, &wire::store(op::SET, &ttl_key, b"t", 0, 4, 1, 0));
                 }
                 drop(tc.take());
                 // programs
@@ -334,27 +338,30 @@ pub fn run_c20(ctx: &Ctx) -> i32 {
                 }
                 // expiry follows real seconds
                 {
+                    // ttl=4 stored at tick k expires between 3 and 4 real seconds later: it must be there at
+                    // +2.5 s (a clock running twice as fast would have expired it) and gone at +5.5 s (a clock
+                    // running at half speed would still have it)
                     let el = t_set.elapsed();
-                    if el < Duration::from_millis(1000) {
-                        std::thread::sleep(Duration::from_millis(1000) - el);
+                    if el < Duration::from_millis(2500) {
+                        std::thread::sleep(Duration::from_millis(2500) - el);
                     }
-                    let early = t_set.elapsed() < Duration::from_millis(1800);
+                    let early = t_set.elapsed() < Duration::from_millis(2900);
                     if let Ok(mut c) = Cli::connect_plain(port) {
                         let r = ask(&mut c, &wire::get(op::GET, &ttl_key, 5));
                         *local.entry("ttl_probes".into()).or_insert(0) += 1;
                         if early && r.as_ref().map(|r| r.status != st::OK).unwrap_or(true) {
-                            viols.push((Viol::new(&["C20", "C05"], "ttl-expired-early", format!("configuration {}: item with ttl=3 missing {:.1} s after the store", conf.name(), t_set.elapsed().as_secs_f64())), describe(json!({}))));
+                            viols.push((Viol::new(&["C20", "C05"], "ttl-expired-early", format!("configuration {}: item with ttl=4 missing {:.1} s after the store", conf.name(), t_set.elapsed().as_secs_f64())), describe(json!({}))));
                         }
                     }
                     let el = t_set.elapsed();
-                    if el < Duration::from_millis(4500) {
-                        std::thread::sleep(Duration::from_millis(4500) - el);
+                    if el < Duration::from_millis(5500) {
+                        std::thread::sleep(Duration::from_millis(5500) - el);
                     }
                     if let Ok(mut c) = Cli::connect_plain(port) {
                         let r = ask(&mut c, &wire::get(op::GET, &ttl_key, 6));
                         *local.entry("ttl_probes".into()).or_insert(0) += 1;
                         if r.as_ref().map(|r| r.status != st::NOT_FOUND).unwrap_or(true) {
-                            viols.push((Viol::new(&["C20", "C05"], "ttl-not-real-time", format!("configuration {}: item with ttl=3 still answered {:?} {:.1} s after the store", conf.name(), r.map(|r| r.status), t_set.elapsed().as_secs_f64())), describe(json!({}))));
+                            viols.push((Viol::new(&["C20", "C05"], "ttl-not-real-time", format!("configuration {}: item with ttl=4 still answered {:?} {:.1} s after the store", conf.name(), r.map(|r| r.status), t_set.elapsed().as_secs_f64())), describe(json!({}))));
                         }
                     }
                 }
